@@ -343,6 +343,9 @@ func dialUDP(ctx context.Context, localAddr, remoteAddr udp.UDPAddr, path snet.P
 	if err != nil {
 		return nil, err
 	}
+	// do not write the chosen port into the caller's address: it may still be in use
+	// by the writer of an earlier connection dialed from the same address value
+	localAddr.Host = snet.CopyUDPAddr(localAddr.Host)
 	localAddr.Host.Port = raw.LocalAddr().(*net.UDPAddr).Port
 	nextHop := path.UnderlayNextHop()
 	return &clientConn{
